@@ -21,5 +21,6 @@ def check(ctx, prog):
     engine.rule_queue_writers(ctx, prog, thorough=ctx.tier == "thorough")
     search.rule_solve_one(ctx, prog, want=("R-HANDOVER",))
     shaving.rule_shave_bound(ctx, prog)  # scope: the un-probing re-queues the watchers of the bound it removed
+    propagators.rule_sole_candidate(ctx, prog)  # over-pruning: the pass ends below the largest common fixpoint
     propagators.rule_enforce_entail(ctx, prog)  # scope: the two halves of an enforced ordering a + k <= b use the same k (a bound left without support)
     shaving.rule_shaving_loop(ctx, prog)  # scope: what shaving hands back is a propagated state with the status of its last pass
